@@ -17,6 +17,10 @@ TEMPLATES = {"quad": "RegionQuadBoundary", "quad8": "RegionQuadraticQuadBoundary
              "hexahedron20": "RegionQuadraticHexahedronBoundary", "hexahedron27": "RegionTriQuadraticHexahedronBoundary"}
 
 
+UNITS = (1.0, 1e-5, 1e3, 1e-3, 1.0, 1e-7)
+GEO_INDEX = {g: i for i, g in enumerate(gen.GEOMETRIES)}
+
+
 def faces_as_sets(rb):
     return set(frozenset(int(i) for i in f) for f in rb.mesh.cells_faces)
 
@@ -28,6 +32,11 @@ def case(fam, geometry, rep):
         dim = gen.FAMILIES[fam]["dim"]
         n = tuple(int(x) for x in rng.integers(2, 5, dim)) if rep else None
         mesh, info = gen.build_mesh(fam, geometry, rng, n=n)
+        # the identities carry no length unit: the same body in micrometre- or kilometre-sized coordinates (areas of 1e-12 .. 1e6)
+        unit = UNITS[(list(TEMPLATES).index(fam) + GEO_INDEX[geometry] + rep + run.seed) % len(UNITS)]
+        if unit != 1.0:
+            mesh = fem.Mesh(mesh.points * unit, mesh.cells, mesh.cell_type)
+        run.units["length-unit=%g" % unit] += 1
         if geometry in ("distorted", "curved") or rep % 2:
             # point numbers carry no meaning: the same body with its points in random order (generators number them structured)
             perm = rng.permutation(mesh.npoints)
@@ -83,15 +92,15 @@ def case(fam, geometry, rep):
             m_upd = mesh.copy()
             rbu = R(m_upd)
             A_, t_ = gen.random_affine(rng, dim)
-            rbu.mesh.update(points=rbu.mesh.points @ A_.T + t_, callback=rbu.reload)
-            MB.check_boundary_region(run, rbu, mesh.copy(points=mesh.points @ A_.T + t_), label=fam + "[reload]")
+            rbu.mesh.update(points=rbu.mesh.points @ A_.T + unit * t_, callback=rbu.reload)
+            MB.check_boundary_region(run, rbu, mesh.copy(points=mesh.points @ A_.T + unit * t_), label=fam + "[reload]")
             run.units[fam + ":reload"] += 1
             # the documented refresh after moving the body: the *user's* mesh is updated and hands itself to the region's reload
             m_usr = mesh.copy()
             rbv = R(m_usr, only_surface=bool(rep % 2 == 0))
             A2, t2 = gen.random_affine(rng, dim)
-            m_usr.update(points=m_usr.points @ A2.T + t2, callback=rbv.reload)
-            MB.check_boundary_region(run, rbv, mesh.copy(points=mesh.points @ A2.T + t2), label=fam + "[reload by the body's mesh]")
+            m_usr.update(points=m_usr.points @ A2.T + unit * t2, callback=rbv.reload)
+            MB.check_boundary_region(run, rbv, mesh.copy(points=mesh.points @ A2.T + unit * t2), label=fam + "[reload by the body's mesh]")
             run.units[fam + ":reload-by-body-mesh"] += 1
             # the geometric gradient of the boundary cells stays the derivative of the position (dXdr drdX = 1)
             one = np.einsum("IKqc,KJqc->IJqc", rb0.dXdr, rb0.drdX)
@@ -175,7 +184,7 @@ def _required():
             req += [u + ":normals", u + ":tangents", u + ":outward", u + ":flux"]
         req += ["%s:only_surface=True:closure" % fam, "%s:only_surface=False:cell-closure" % fam, fam + ":mask",
                 fam + ":cells_faces", fam + ":surface-selection", fam + ":reload-by-body-mesh"]
-    req += ["quad:ensure_3d", "quad8:ensure_3d", "quad9:ensure_3d", "points-in-random-order"]
+    req += ["quad:ensure_3d", "quad8:ensure_3d", "quad9:ensure_3d", "points-in-random-order", "length-unit=1", "length-unit=1e-05", "length-unit=0.001", "length-unit=1000", "length-unit=1e-07"]
     req += ["%s:only_surface=%s:face-area-vector" % (f, s_) for f in ("quad", "hexahedron") for s_ in (True, False)]
     return req
 
@@ -183,7 +192,7 @@ def _required():
 SPEC = {
     "required_units": _required(),
     "rule": ("six boundary templates x geometric classes (undistorted, affine, straight-distorted, curved by a smooth map with "
-             "bounded gradient) x only_surface x ensure_3d x random point masks on seeded meshes of 2..12 cells; the "
+             "bounded gradient) x length units 1e-7 .. 1e3 x only_surface x ensure_3d x random point masks on seeded meshes of 2..12 cells; the "
              "RegionBoundary.__init__ post-hook evaluates every identity; a configuration is distinct by (cell type, "
              "geometry class, flags, clause)"),
     "assumptions": ["outwardness is judged against the vertex centroid of the owning cell (valid for the generated, mildly "
